@@ -72,15 +72,20 @@ def check_inv(ctx, k):
     ctx.validate(k, [[b0, x] for x in vals], env=[0x1234], base=None)
 
 
-def check_ptrcast(ctx, k):
+def check_ptrcast(ctx, k, pb=4):
     base = ctx.sandbox_base(32)
     size = 1 << 32
     x = ctx.sym("x", 64)
     mem0 = ctx.eng.initial_memory()
     if k.endswith("_tv"):
-        ctx.assume(z3.UGE(x, base), z3.ULE(x - base, BV(size - 4, 64)))
-        raw = zext(z3.Concat(*[z3.Select(mem0, x + BV(i, 64)) for i in reversed(range(4))]), 64)
+        ctx.assume(z3.UGE(x, base), z3.ULE(x - base, BV(size - pb, 64)))
+        raw = zext(z3.Concat(*[z3.Select(mem0, x + BV(i, 64)) for i in reversed(range(pb))]), 64)
+        if pb == 8:
+            raw = raw & BV(size - 1, 64)      # B64M masks the representation into the region when it translates
         want = z3.If(raw == 0, BV(0, 64), base + raw)
+        if pb == 8:
+            full = z3.Concat(*[z3.Select(mem0, x + BV(i, 64)) for i in reversed(range(8))])
+            want = z3.If(full == 0, BV(0, 64), base + raw)
     else:
         ctx.assume(z3.Or(x == 0, ctx.in_region(x, base, size)))
         want = x
@@ -91,6 +96,8 @@ def check_ptrcast(ctx, k):
     ctx.only(paths, "ret")
     ctx.expect(paths, ret=1)
     b0 = 0x300000000
+    if pb != 4:
+        return
     if k.endswith("_tv"):
         ctx.validate(k, [[b0, b0 + 0x40]], mem={b0 + 0x40 + i: 0x31 + i for i in range(4)}, base=b0)
     else:
@@ -161,6 +168,9 @@ def jobs(tier, seed):
     items += [dict(name="cast " + k, fn=check_ptrcast, kw=dict(k=k)) for k in ("k_rc_t", "k_rc_tv", "k_cc_t", "k_cc_tv", "k_sc_ptr_t", "k_sc_ptr_tv")]
     items += [dict(name="static_cast " + k, fn=check_enum, kw=dict(k=k)) for k in ("k_sc_enum_from_uint", "k_sc_uint_from_enum")]
     out = [Job("C20_%d" % i, src, items[i::6]) for i in range(6)]
+    # host-width, non-identity pointer representation: casts of sandbox-resident pointers must still translate them
+    src64 = '#include "verif_sandbox.hpp"\nusing S = B64M;\n#include "C20_kernels.inc"\n'
+    out.append(Job("C20_B64M_casts", src64, [dict(name="B64M cast " + k, fn=check_ptrcast, kw=dict(k=k, pb=8)) for k in ("k_rc_t", "k_rc_tv", "k_cc_t", "k_cc_tv", "k_sc_ptr_t", "k_sc_ptr_tv")], native=False))
     out.append(Job("C20_noop_cb_fp", '#include "C20_noop.inc"\n', [dict(name="noop callback with opaque double/int/float", fn=check_cb_fp, unwind=300)], flags=["-D_GLIBCXX_EXTERN_TEMPLATE=0"]))
     from specs import C03
     for k in ("k_bm_cast_fnptrptr", "k_bm_scast_fnptrptr"):
